@@ -72,9 +72,26 @@ Definition run_hc_static (a : list Z) : list Z :=
   | _ => [-1]
   end.
 
+(* CMD allocate = 5 : tensor_allocator cpu_tensor_alignment has_max_iterations max_iterations mem_size n
+                      (start end size align name)*n stream*
+     -> Greedy (2): memory_required (name address)*   LinearAlloc (1) / HillClimb (3): 1 total_sz address* | 0 code *)
+Definition run_allocate (a : list Z) : list Z :=
+  match a with
+  | tag :: al :: hm :: mi :: limit :: n :: rest =>
+      let '(lrs, stream) := parse_lrs (Z.to_nat n) rest in
+      match allocate (list Z) next_list tag al lrs (if hm =? 0 then None else Some mi) limit stream with
+      | InOrder out mem => mem :: flat_map (fun p => [lr_name (fst p); snd p]) out
+      | ByIndex (Ok (addrs, total)) => 1 :: total :: addrs
+      | ByIndex (Err c) => [0; c]
+      | BadAllocator => [-2]
+      end
+  | _ => [-1]
+  end.
+
 Definition run (cmd : Z) (a : list Z) : list Z :=
   if cmd =? 1 then run_greedy a
   else if cmd =? 2 then run_linear a
   else if cmd =? 3 then run_hillclimb a
   else if cmd =? 4 then run_hc_static a
+  else if cmd =? 5 then run_allocate a
   else [-1].
